@@ -16,6 +16,103 @@ use serde_json::json;
 use vcore::{CaseCtx, Check, Fail, Outcome, ensure};
 
 // ---------------------------------------------------------------------------
+// (a') real-thread schedules: two receive threads and one burst thread on one AntiAmplifier
+// ---------------------------------------------------------------------------
+
+/// `Path::on_packet_rcvd` (receive task) and `Path::send_packets` (burst task) run on different
+/// threads. The interleaving is the operating system's, not the generator's: a failure here is
+/// real but its replay is only probabilistic.
+#[derive(Debug, Clone, Serialize, Deserialize)]
+struct TCase {
+    /// datagram sizes each receive thread reports, cycled `reps` times
+    rcv: [Vec<u16>; 2],
+    reps: u16,
+    /// bytes the burst thread tries to send per round (clipped to the balance), cycled
+    want: Vec<u16>,
+}
+
+fn tcase() -> impl Strategy<Value = TCase> {
+    let sizes = || proptest::collection::vec(prop_oneof![Just(1200u16), 1u16..1500], 1..40);
+    (sizes(), sizes(), 50u16..400, proptest::collection::vec(prop_oneof![3 => 1u16..1500, 1 => Just(u16::MAX)], 1..20))
+        .prop_map(|(a, b, reps, want)| TCase { rcv: [a, b], reps, want })
+}
+
+fn threads_oracle(case: &TCase, ctx: &mut CaseCtx) -> Outcome {
+    use std::sync::{Arc, atomic::{AtomicBool, AtomicU64, Ordering::SeqCst}};
+    let aa: Arc<AntiAmplifier> = Arc::new(AntiAmplifier::new(ArcSendWaker::new()));
+    // counted *before* on_rcvd is called: an upper bound of what the amplifier may have credited
+    let announced = Arc::new(AtomicU64::new(0));
+    let done = Arc::new(AtomicBool::new(false));
+    let mut receivers = vec![];
+    for list in case.rcv.iter().cloned() {
+        let (aa, announced, reps) = (aa.clone(), announced.clone(), case.reps);
+        receivers.push(std::thread::spawn(move || {
+            let mut total = 0u64;
+            for _ in 0..reps {
+                for n in &list {
+                    announced.fetch_add(*n as u64, SeqCst);
+                    aa.on_rcvd(*n as usize);
+                    total += *n as u64;
+                }
+            }
+            total
+        }));
+    }
+    let sender = {
+        let (aa, announced, done, want) = (aa.clone(), announced.clone(), done.clone(), case.want.clone());
+        std::thread::spawn(move || -> Result<(u64, u64), (u64, u64, u64)> {
+            let (mut sent, mut blocked, mut i) = (0u64, 0u64, 0usize);
+            loop {
+                let finished = done.load(SeqCst);
+                match aa.balance() {
+                    Ok(Some(credit)) => {
+                        let upper = 3 * announced.load(SeqCst);
+                        if credit as u64 > upper.saturating_sub(sent) {
+                            return Err((credit as u64, upper, sent));
+                        }
+                        let n = (want[i % want.len()] as usize).min(credit);
+                        i += 1;
+                        aa.on_sent(n);
+                        sent += n as u64;
+                    }
+                    Ok(None) => unreachable!("never aborted"),
+                    Err(_) => {
+                        blocked += 1;
+                        if finished {
+                            return Ok((sent, blocked));
+                        }
+                        std::thread::yield_now();
+                    }
+                }
+            }
+        })
+    };
+    let rcvd: u64 = receivers.into_iter().map(|h| h.join().expect("receiver thread")).sum();
+    done.store(true, SeqCst);
+    let res = sender.join().expect("burst thread");
+    match res {
+        Err((credit, upper, sent)) => vcore::fail!(
+            "threads-credit-exceeds-budget",
+            "balance() = {credit} while at most 3 x received = {upper} was ever credited and {sent} already sent"
+        ),
+        Ok((sent, blocked)) => {
+            // the burst thread stopped because balance() reported no credit after the last datagram
+            // had been reported: everything received must have bought its allowance
+            ensure!(
+                sent == 3 * rcvd,
+                "threads-credit-lost",
+                "burst thread blocked on CREDIT with {sent} bytes sent although {rcvd} bytes were received (3x = {}): {} bytes of allowance vanished or appeared",
+                3 * rcvd,
+                (3 * rcvd).abs_diff(sent)
+            );
+            ctx.classes.push(if blocked > 1 { "threads:blocked-midway".into() } else { "threads:never-blocked".into() });
+            ctx.nontrivial = blocked > 1;
+        }
+    }
+    Ok(())
+}
+
+// ---------------------------------------------------------------------------
 // (a) unit histories
 // ---------------------------------------------------------------------------
 
@@ -295,9 +392,12 @@ fn main() {
          the wire tap samples (bytes received from, bytes sent to) the client address at every server send until a Handshake/1-RTT packet from the client is delivered; non-trivial = the server got within one datagram of 3x. distinct = by hash of the serialised case.",
     );
     check.assume("the server's address validation is assumed to happen no earlier than the delivery of the first client datagram carrying a Handshake or 1-RTT packet (no tokens, no Retry in these runs)");
-    check.assume("lock-free interleavings inside AntiAmplifier (two atomic loads in balance()) are not explored: single-threaded histories");
+    check.assume("aa-threads stage: the interleaving of the receive threads and the burst thread on the lock-free AntiAmplifier is chosen by the operating system, not by the seed; the oracle is exact at quiescence, so a failure is real, but detection and replay are probabilistic. grant()/abort() are not raced.");
     let n = check.pick(60_000, 5_000_000);
     check.stage("aa-unit", n, 16, ucase, unit_oracle);
+    let n = check.pick(400, 20_000);
+    check.max_shrink_iters = 0;
+    check.stage("aa-threads", n, 4, tcase, threads_oracle);
     check.max_shrink_iters = 200;
     let n = check.pick(600, 30_000);
     check.stage("e2e-unvalidated", n, 16, ecase, e2e_oracle);
